@@ -41,7 +41,7 @@ func (r *DescribeLogDirsRequest) encode(pe packetEncoder) error {
 }
 
 func (r *DescribeLogDirsRequest) decode(pd packetDecoder, version int16) error {
-	n, err := pd.getArrayLength()
+	n, err := pd.getNullableArrayLength()
 	if err != nil {
 		return err
 	}
